@@ -118,9 +118,51 @@ func runLZWriter(k lzCase, data []byte) (sink *mon.Sink, dev string, pn *mon.Pan
 	w, sink = sinkFor(k.ByteSink)
 	cfg := k.config(int64(len(data)))
 	pn = mon.Guard(func() {
+		// configuration lifecycle (a function of the case seed): fresh literal; verified with
+		// other values first and then set; Properties changed by the caller right after
+		// NewWriter returned.  The writer must behave as configured at the time of NewWriter.
+		var pv *lzma.Properties
+		switch k.Seed % 8 {
+		case 5:
+			final := cfg
+			cfg = lzma.WriterConfig{DictCap: 4096, Properties: &lzma.Properties{LC: 1, LP: 1, PB: 1}}
+			cfg.Verify()
+			if w0, err := cfg.NewWriter(io.Discard); err == nil {
+				w0.Write([]byte("earlier stream"))
+				w0.Close()
+			}
+			cfg.Properties, cfg.DictCap, cfg.Matcher = final.Properties, final.DictCap, final.Matcher
+			if final.BufSize != 0 {
+				cfg.BufSize = final.BufSize
+			}
+			cfg.SizeInHeader, cfg.Size, cfg.EOSMarker = final.SizeInHeader, final.Size, final.EOSMarker
+		case 6:
+			v := *cfg.Properties
+			pv = &v
+			cfg.Properties = pv
+		}
 		lw, err := cfg.NewWriter(w)
 		if err != nil {
 			dev = fmt.Sprintf("NewWriter: %v", err)
+			return
+		}
+		if pv != nil {
+			*pv = lzma.Properties{LC: (pv.LC + 1) % 3, LP: (pv.LP + 1) % 2, PB: (pv.PB + 2) % 5}
+		}
+		if k.Seed%8 == 7 && len(data) > 0 {
+			// fed through io.Copy from a source without WriteTo whose last bytes come with io.EOF
+			src := mon.NewSource(data)
+			src.Frag = "eofwith"
+			fr := prng.New(k.Seed, 3)
+			src.Next = func(max int) int { return fr.Range(1, 1+fr.Pick(300, 5000, 40000)) }
+			n, err := io.Copy(lw, struct{ io.Reader }{src})
+			if n != int64(len(data)) || err != nil {
+				dev = fmt.Sprintf("io.Copy of %d bytes into the writer returned (%d, %v)", len(data), n, err)
+				return
+			}
+			if err := lw.Close(); err != nil {
+				dev = fmt.Sprintf("Close returned %v", err)
+			}
 			return
 		}
 		pos := 0
